@@ -586,6 +586,16 @@ def models(draw, feats=(), max_classes=5, doc_type=None):
                 if d is not None:
                     p['default'] = d
             c['params'].append(p)
+        if 'underscore' in feats and '_id' not in taken and draw(st.integers(0, 2)) == 0:
+            # a parameter whose name starts with an underscore is an ordinary
+            # attribute (only _yatiml_extra is special)
+            p = {'name': '_id', 'type': draw(st.sampled_from(
+                ['int', 'int', ['list', 'int'], ['opt', 'int'], ['dict', 'str', 'int'], 'str']))}
+            if draw(st.booleans()):
+                d = default_for(draw, p['type'])
+                if d is not None:
+                    p['default'] = d
+            c['params'].append(p)
         # required parameters must precede defaulted ones
         c['params'] = ([p for p in c['params'] if 'default' not in p]
                        + [p for p in c['params'] if 'default' in p])
